@@ -74,7 +74,7 @@ impl AlcCodec for AlcRaptor {
             return Err(FluteError::new("Symbol size is null"));
         }
 
-        if z == 0 {
+        if z == 0 && transfer_length != 0 {
             return Err(FluteError::new("Z is null"));
         }
 
@@ -86,7 +86,11 @@ impl AlcCodec for AlcRaptor {
             return Err(FluteError::new("Symbol size is not properly aligned"));
         }
 
-        let block_size = num_integer::div_ceil(transfer_length, z as u64);
+        // An empty object has no source block (Z = 0)
+        let block_size = match z {
+            0 => 0,
+            _ => num_integer::div_ceil(transfer_length, z as u64),
+        };
         let maximum_source_block_length = num_integer::div_ceil(block_size, symbol_size as u64);
 
         let oti = oti::Oti {
